@@ -15,19 +15,24 @@ verus! {
 //@ltype Pressure => real
 //@ltype Moles => real
 //@lstruct feos-core/src/state/mod.rs State fields=temperature
-//@lextern vapor(L_PE) -> L_State
-//@lextern liquid(L_PE) -> L_State
+// PhaseEquilibrium is a tuple struct around [vapor, liquid]; its accessors are lifted, so `init.vapor()` and
+// `init.0[0]` are the same value
+//@lextern field_0(L_PE) -> (L_State, L_State)
+//@lift feos-core/src/phase_equilibria/mod.rs PhaseEquilibrium::vapor#0
+//@end
+//@lift feos-core/src/phase_equilibria/mod.rs PhaseEquilibrium::liquid
+//@end
 //@lextern update_temperature(L_State, real) -> Result<L_State, LErr>
-//@lextern PhaseEquilibrium_new_npt(L_Eos, real, real, RArr, RArr) -> Result<L_PE, LErr>
+//@lextern new_npt(L_Eos, real, real, RArr, RArr) -> Result<L_PE, LErr>
 //@lextern check_trivial_solution(L_PE) -> Result<L_PE, LErr>
 //@lextern Self_ctor((L_State, L_State)) -> L_PE
 //@lextern starting_pressure_ideal_gas_bubble(L_Eos, real, RArr) -> Result<(real, RArr), LErr>
 //@lextern starting_pressure_spinodal(L_Eos, real, RArr) -> Result<real, LErr>
 //@lift feos-core/src/phase_equilibria/vle_pure.rs PhaseEquilibrium::init_pure_state observe=@update_temperature#0.0:L_State,@update_temperature#0.1:real,@update_temperature#1.0:L_State,@update_temperature#1.1:real observe_only
 //@end
-//@lift feos-core/src/phase_equilibria/vle_pure.rs PhaseEquilibrium::init_pure_ideal_gas observe=@PhaseEquilibrium_new_npt.1:real observe_only
+//@lift feos-core/src/phase_equilibria/vle_pure.rs PhaseEquilibrium::init_pure_ideal_gas observe=@new_npt.1:real observe_only
 //@end
-//@lift feos-core/src/phase_equilibria/vle_pure.rs PhaseEquilibrium::init_pure_spinodal observe=@PhaseEquilibrium_new_npt.1:real observe_only
+//@lift feos-core/src/phase_equilibria/vle_pure.rs PhaseEquilibrium::init_pure_spinodal observe=@new_npt.1:real observe_only
 //@end
 
 pub proof fn contract_c04_2_initial_pairs_at_given_temperature(eos: L_Eos, init: L_PE, t: real)
@@ -41,10 +46,10 @@ pub proof fn contract_c04_2_initial_pairs_at_given_temperature(eos: L_Eos, init:
         },
         // from the ideal-gas / spinodal pressure estimates: PhaseEquilibrium::new_npt at the given temperature
         // (whenever the pressure estimate succeeds and the call is reached)
-        init_pure_ideal_gas__PhaseEquilibrium_new_npt_arg1(eos, t) is Ok ==>
-            init_pure_ideal_gas__PhaseEquilibrium_new_npt_arg1(eos, t)->Ok_0 == t,
-        init_pure_spinodal__PhaseEquilibrium_new_npt_arg1(eos, t) is Ok ==>
-            init_pure_spinodal__PhaseEquilibrium_new_npt_arg1(eos, t)->Ok_0 == t,
+        init_pure_ideal_gas__new_npt_arg1(eos, t) is Ok ==>
+            init_pure_ideal_gas__new_npt_arg1(eos, t)->Ok_0 == t,
+        init_pure_spinodal__new_npt_arg1(eos, t) is Ok ==>
+            init_pure_spinodal__new_npt_arg1(eos, t)->Ok_0 == t,
 {}
 } // verus!
 fn main() {}
